@@ -548,6 +548,20 @@ fn apply_fault(f: &Fault, files: &[FileSpec], disk: &mut Vec<Option<Vec<u8>>>, r
     }
 }
 
+/// The verdict of a verify_* call without its path fields.
+fn shape<T: std::fmt::Debug>(r: &Result<T, DistinfoError>) -> String {
+    match r {
+        Ok(v) => format!("Ok({:?})", v),
+        Err(DistinfoError::Io(_)) => "Io".to_string(),
+        Err(DistinfoError::Digest(_)) => "Digest".to_string(),
+        Err(DistinfoError::NotFound) => "NotFound".to_string(),
+        Err(DistinfoError::Checksum(_, d, e, a)) => format!("Checksum({},{},{})", d, e, a),
+        Err(DistinfoError::MissingChecksum(_, d)) => format!("MissingChecksum({})", d),
+        Err(DistinfoError::Size(_, e, a)) => format!("Size({},{})", e, a),
+        Err(DistinfoError::MissingSize(_)) => "MissingSize".to_string(),
+    }
+}
+
 fn rel(name: &str) -> String {
     format!("d/{}", name)
 }
@@ -758,6 +772,68 @@ impl Property for C12 {
                         rname
                     ),
                     Err(e) => fail!("lookup-resolved-wrong-entry", "find_entry({}) failed: {}", fsp.name, e),
+                }
+                // the entry holds exactly what was recorded, and its own verify_*
+                // methods give the same verdicts as the Distinfo-level ones
+                if let Ok(e) = distinfo.find_entry(&p) {
+                    ensure!(
+                        e.size == rec.size,
+                        "entry-record-differs",
+                        "{}: entry.size is {:?}, recorded {:?}",
+                        rname,
+                        e.size,
+                        rec.size
+                    );
+                    let got_ck: Vec<(String, String)> =
+                        e.checksums.iter().map(|c| (c.digest.to_string(), c.hash.clone())).collect();
+                    let want_ck: Vec<(String, String)> =
+                        rec.checksums.iter().map(|(a, h)| (ALG_NAMES[*a].to_string(), h.clone())).collect();
+                    ensure!(
+                        got_ck == want_ck,
+                        "entry-record-differs",
+                        "{}: entry.checksums are {:?}, recorded {:?}",
+                        rname,
+                        got_ck,
+                        want_ck
+                    );
+                    ensure!(
+                        (e.filetype == EntryType::Patchfile) == model_is_patch(rname),
+                        "file-kind",
+                        "{} classified as {:?}",
+                        rname,
+                        e.filetype
+                    );
+                    ensure!(
+                        shape(&e.verify_size(&p)) == shape(&distinfo.verify_size(&p)),
+                        "entry-and-distinfo-verdicts-differ",
+                        "{}: Entry::verify_size gives {} but Distinfo::verify_size gives {}",
+                        fsp.name,
+                        shape(&e.verify_size(&p)),
+                        shape(&distinfo.verify_size(&p))
+                    );
+                    for a in 0..6 {
+                        let x = shape(&e.verify_checksum(&p, ALGS[a]));
+                        let y = shape(&distinfo.verify_checksum(&p, ALGS[a]));
+                        ensure!(
+                            x == y,
+                            "entry-and-distinfo-verdicts-differ",
+                            "{} {}: Entry::verify_checksum gives {} but Distinfo::verify_checksum gives {}",
+                            fsp.name,
+                            ALG_NAMES[a],
+                            x,
+                            y
+                        );
+                    }
+                    let x: Vec<String> = e.verify_checksums(&p).iter().map(shape).collect();
+                    let y: Vec<String> = distinfo.verify_checksums(&p).iter().map(shape).collect();
+                    ensure!(
+                        x == y,
+                        "entry-and-distinfo-verdicts-differ",
+                        "{}: Entry::verify_checksums gives {:?} but Distinfo::verify_checksums gives {:?}",
+                        fsp.name,
+                        x,
+                        y
+                    );
                 }
 
                 // size
